@@ -1,3 +1,236 @@
-(* TreeMap2 — reserved for the proof agent owning this topic. *)
+(* TreeMap2 — the radix forest refines the map specification (MapSpec):
+   token-level meaning of the byte-level conflict relations, the abstraction
+   relation, one refinement theorem per operation, and the theorem for
+   arbitrary histories with transactions (C02_refines_map). *)
 From FoxBase Require Import Bytes.
-From FoxRoute Require Import Node Lookup Spec Tree.
+From FoxRoute Require Import Node Lookup Spec Tree MapSpec CorrHist WFDef TreeWF TreeWF2 TreeMap.
+From Coq Require Import Sorting.Sorted Permutation.
+Open Scope char_scope.
+
+(* ---------- the tokenizer ---------- *)
+Lemma tokenize_fuel_eq f s : tokenize_fuel (S f) s =
+  match s with
+  | [] => []
+  | c :: r =>
+    if Ascii.eqb c "{" then (let '(n, r') := take_name r in TParam n :: tokenize_fuel f r')
+    else if Ascii.eqb c "*" then
+      match r with
+      | d :: r1 => if Ascii.eqb d "{" then (let '(n, r') := take_name r1 in TCatch n :: tokenize_fuel f r')
+                   else TStatic c :: tokenize_fuel f r
+      | [] => TStatic c :: tokenize_fuel f r
+      end
+    else TStatic c :: tokenize_fuel f r
+  end.
+Proof.
+  destruct s as [|c r]; [reflexivity|].
+  destruct c as [[|] [|] [|] [|] [|] [|] [|] [|]]; try reflexivity.
+  destruct r as [|d r1]; [reflexivity|].
+  destruct d as [[|] [|] [|] [|] [|] [|] [|] [|]]; reflexivity.
+Qed.
+
+Lemma take_name_len s : List.length (snd (take_name s)) <= List.length s.
+Proof.
+  induction s as [|c r IH]; simpl; [lia|]. destruct (Ascii.eqb c "}"); simpl; [lia|].
+  destruct (take_name r) as [n r']. simpl in *. lia.
+Qed.
+
+Lemma tokenize_fuel_indep : forall f1 f2 s, List.length s < f1 -> List.length s < f2 ->
+  tokenize_fuel f1 s = tokenize_fuel f2 s.
+Proof.
+  induction f1 as [|f1 IH]; intros f2 s H1 H2; [lia|]. destruct f2 as [|f2]; [lia|].
+  rewrite !tokenize_fuel_eq. destruct s as [|c r]; [reflexivity|]. simpl in H1, H2.
+  destruct (Ascii.eqb c "{").
+  - pose proof (take_name_len r) as Hl. destruct (take_name r) as [n r']. simpl in Hl. f_equal. apply IH; lia.
+  - destruct (Ascii.eqb c "*").
+    + destruct r as [|d r1]; [reflexivity|]. simpl in H1, H2. destruct (Ascii.eqb d "{").
+      * pose proof (take_name_len r1) as Hl. destruct (take_name r1) as [n r']. simpl in Hl. f_equal. apply IH; lia.
+      * f_equal. apply IH; simpl; lia.
+    + f_equal. apply IH; lia.
+Qed.
+
+Lemma tokenize_cons c r : tokenize (c :: r) =
+    if Ascii.eqb c "{" then (let '(n, r') := take_name r in TParam n :: tokenize r')
+    else if Ascii.eqb c "*" then
+      match r with
+      | d :: r1 => if Ascii.eqb d "{" then (let '(n, r') := take_name r1 in TCatch n :: tokenize r')
+                   else TStatic c :: tokenize r
+      | [] => TStatic c :: tokenize r
+      end
+    else TStatic c :: tokenize r.
+Proof.
+  unfold tokenize. rewrite tokenize_fuel_eq. simpl List.length.
+  destruct (Ascii.eqb c "{").
+  - pose proof (take_name_len r) as Hl. destruct (take_name r) as [n r']. simpl in Hl. f_equal.
+    apply tokenize_fuel_indep; lia.
+  - destruct (Ascii.eqb c "*"); [|reflexivity].
+    destruct r as [|d r1]; [reflexivity|]. destruct (Ascii.eqb d "{"); [|reflexivity].
+    pose proof (take_name_len r1) as Hl. destruct (take_name r1) as [n r']. simpl in Hl. f_equal.
+    apply tokenize_fuel_indep; simpl; lia.
+Qed.
+
+Lemma take_name_app2 nm w : ~ In "}" nm ->
+  take_name (nm ++ w) = (nm ++ fst (take_name w), snd (take_name w)).
+Proof.
+  induction nm as [|c nm IH]; intros Hni; simpl.
+  - destruct (take_name w); reflexivity.
+  - destruct (Ascii.eqb_spec c "}") as [->|Hne]; [exfalso; apply Hni; left; reflexivity|].
+    rewrite IH by (intros H; apply Hni; right; exact H). reflexivity.
+Qed.
+
+Lemma take_name_app nm r2 : ~ In "}" nm -> take_name (nm ++ "}" :: r2) = (nm, r2).
+Proof. intros H. rewrite take_name_app2 by exact H. simpl. rewrite app_nil_r. reflexivity. Qed.
+
+Lemma vname_run : forall r h, vclosed (fold_left vstep r (h, VName)) = true ->
+  exists nm r2, r = nm ++ "}" :: r2 /\ ~ In "}" nm /\
+                fold_left vstep r (h, VName) = fold_left vstep r2 (h, VAfter).
+Proof.
+  induction r as [|c r IH]; intros h Hc; [discriminate|].
+  destruct (Ascii.eqb_spec c "}") as [->|Hne].
+  - exists [], r. simpl. auto.
+  - simpl in Hc. destruct (Ascii.eqb_spec c "}"); [contradiction|].
+    destruct (Ascii.eqb c "/" || Ascii.eqb c "*" || Ascii.eqb c "{" || h && Ascii.eqb c ".") eqn:E.
+    + rewrite vbad_abs in Hc. discriminate.
+    + destruct (IH h Hc) as [nm [r2 [-> [Hni Hf]]]]. exists (c :: nm), r2. split; [reflexivity|]. split.
+      * intros [H|H]; [congruence|contradiction].
+      * simpl. destruct (Ascii.eqb_spec c "}"); [contradiction|]. rewrite E. exact Hf.
+Qed.
+
+Definition okstart (s : bool * vst) : Prop := snd s = VDef \/ snd s = VAfter.
+
+Lemma tokenize_app_gen : forall n u s0 v, List.length u <= n -> okstart s0 ->
+  vclosed (fold_left vstep u s0) = true -> tokenize (u ++ v) = tokenize u ++ tokenize v.
+Proof.
+  induction n as [|n IH]; intros u s0 v Hl Hs Hc.
+  { destruct u; [reflexivity|simpl in Hl; lia]. }
+  destruct u as [|c r]; [reflexivity|]. simpl in Hl. destruct s0 as [h st]. simpl app.
+  rewrite !tokenize_cons. cbn [fold_left] in Hc.
+  assert (forall s1, vstep (h, st) c = s1 -> okstart s1 ->
+            TStatic c :: tokenize (r ++ v) = (TStatic c :: tokenize r) ++ tokenize v) as Hstatic.
+  { intros s1 E Hs1. rewrite E in Hc. simpl. f_equal. apply (IH r s1); auto; lia. }
+  destruct Hs as [Hs|Hs]; simpl in Hs; subst st.
+  - destruct (Ascii.eqb_spec c "{") as [->|N1].
+    + simpl in Hc. destruct (vname_run r h Hc) as [nm [r2 [-> [Hni Hf]]]].
+      rewrite <- app_assoc. simpl. rewrite !take_name_app by exact Hni. simpl. f_equal.
+      rewrite Hf in Hc. apply (IH r2 (h, VAfter)); [rewrite app_length in Hl; simpl in Hl; lia|right; reflexivity|exact Hc].
+    + destruct (Ascii.eqb_spec c "*") as [->|N2].
+      * simpl in Hc. destruct h; [rewrite vbad_abs in Hc; discriminate|].
+        destruct r as [|d r1]; [discriminate|]. simpl in Hc.
+        destruct (Ascii.eqb_spec d "{") as [->|N3]; [|rewrite vbad_abs in Hc; discriminate].
+        destruct (vname_run r1 false Hc) as [nm [r2 [-> [Hni Hf]]]].
+        simpl. rewrite <- app_assoc. simpl. rewrite !take_name_app by exact Hni. simpl. f_equal.
+        rewrite Hf in Hc. apply (IH r2 (false, VAfter)); [simpl in Hl; rewrite app_length in Hl; simpl in Hl; lia|right; reflexivity|exact Hc].
+      * simpl in Hc. destruct (Ascii.eqb_spec c "/") as [->|N3].
+        -- eapply Hstatic; [simpl; reflexivity|left; reflexivity].
+        -- eapply Hstatic; [simpl|left; reflexivity].
+           destruct (Ascii.eqb_spec c "/"); [contradiction|]. destruct (Ascii.eqb_spec c "{"); [contradiction|].
+           destruct (Ascii.eqb_spec c "*"); [contradiction|]. reflexivity.
+  - simpl in Hc. destruct (Ascii.eqb_spec c "/") as [->|N1].
+    + simpl. eapply Hstatic; [simpl; reflexivity|left; reflexivity].
+    + destruct (h && Ascii.eqb c ".") eqn:E; [|rewrite vbad_abs in Hc; discriminate].
+      apply andb_true_iff in E. destruct E as [-> E]. apply Ascii.eqb_eq in E. subst c. simpl.
+      eapply Hstatic; [simpl; reflexivity|left; reflexivity].
+Qed.
+
+Lemma tokenize_app u v : closed u = true -> tokenize (u ++ v) = tokenize u ++ tokenize v.
+Proof. intros H. apply (tokenize_app_gen (List.length u) u vinit v); auto. left. reflexivity. Qed.
+
+Lemma token_eqb_refl x : token_eqb x x = true.
+Proof. destruct x; simpl; [apply Ascii.eqb_refl|apply bytes_eqb_refl|apply bytes_eqb_refl]. Qed.
+
+Lemma tokens_conflict_app t a b : tokens_conflict (t ++ a) (t ++ b) = tokens_conflict a b.
+Proof. induction t as [|x t IH]; simpl; [reflexivity|]. rewrite token_eqb_refl. exact IH. Qed.
+
+Lemma tokens_conflict_nil_r a : tokens_conflict a [] = false.
+Proof. destruct a; reflexivity. Qed.
+
+(* first token of a non-empty string *)
+Lemma tokenize_head a s : exists t ts, tokenize (a :: s) = t :: ts /\
+  match t with
+  | TStatic c => c = a
+  | TParam _ => a = "{"
+  | TCatch _ => a = "*"
+  end.
+Proof.
+  rewrite tokenize_cons. destruct (Ascii.eqb_spec a "{") as [->|N1].
+  - destruct (take_name s) as [n r']. eauto.
+  - destruct (Ascii.eqb_spec a "*") as [->|N2].
+    + destruct s as [|d r1]; [eauto|]. destruct (Ascii.eqb d "{"); [|eauto].
+      destruct (take_name r1) as [n r']. eauto.
+    + eauto.
+Qed.
+
+Theorem apart_no_conflict p q : apart p q -> patterns_conflict p q = false /\ p <> q.
+Proof.
+  unfold patterns_conflict. intros [[k [Hk [-> Hc]]]|[[k [Hk [-> Hc]]]|[u [a [s [b [s' [-> [-> [Hab Hc]]]]]]]]]].
+  - split.
+    + rewrite tokenize_app by exact Hc. rewrite <- (app_nil_r (tokenize p)) at 1.
+      rewrite tokens_conflict_app. reflexivity.
+    + intros E. symmetry in E. revert E. apply app_ne_self. exact Hk.
+  - split.
+    + rewrite tokenize_app by exact Hc. rewrite <- (app_nil_r (tokenize q)) at 2.
+      rewrite tokens_conflict_app. apply tokens_conflict_nil_r.
+    + apply app_ne_self. exact Hk.
+  - split.
+    + rewrite !tokenize_app by exact Hc. rewrite tokens_conflict_app.
+      destruct (tokenize_head a s) as [t1 [ts1 [-> H1]]]. destruct (tokenize_head b s') as [t2 [ts2 [-> H2]]].
+      simpl. destruct t1, t2; simpl; subst; try reflexivity; try congruence.
+      destruct (Ascii.eqb_spec c c0); [congruence|reflexivity].
+    + intros E. apply app_inv_head in E. congruence.
+Qed.
+
+Lemma vstar_split u s0 : okstart s0 -> snd (fold_left vstep u s0) = VStar ->
+  exists u', u = u' ++ ["*"] /\ vclosed (fold_left vstep u' s0) = true.
+Proof.
+  intros Hs H. destruct u as [|c u _] using rev_ind.
+  - simpl in H. destruct Hs; congruence.
+  - rewrite fold_left_app in H. simpl in H. destruct (fold_left vstep u s0) as [h st] eqn:E.
+    exists u. destruct st; simpl in H; deqb; try destruct h; simpl in *; try congruence.
+    all: split; [reflexivity|rewrite E; reflexivity].
+Qed.
+
+Lemma vname_split : forall u s0, okstart s0 -> snd (fold_left vstep u s0) = VName ->
+  exists u0 nm (catch : bool), u = u0 ++ (if catch then ["*"; "{"] else ["{"]) ++ nm /\
+    vclosed (fold_left vstep u0 s0) = true /\ ~ In "}" nm.
+Proof.
+  induction u as [|c u IH] using rev_ind; intros s0 Hs H.
+  - simpl in H. destruct Hs; congruence.
+  - rewrite fold_left_app in H. simpl in H. destruct (fold_left vstep u s0) as [h st] eqn:E.
+    destruct st.
+    + (* VDef: c = "{" *)
+      exists u, [], false. simpl in H. deqb; try destruct h; simpl in *; try congruence.
+      all: split; [rewrite app_nil_r; reflexivity|]; split; [rewrite E; reflexivity|tauto].
+    + (* VStar: c = "{" after "*" *)
+      destruct (vstar_split u s0 Hs) as [u' [-> Hc']]; [rewrite E; reflexivity|].
+      exists u', [], true. simpl in H. deqb; try congruence.
+      split; [rewrite <- app_assoc; reflexivity|]. split; [exact Hc'|tauto].
+    + (* VName: the name goes on *)
+      destruct (IH s0 Hs) as [u0 [nm [catch [-> [Hc' Hni]]]]]; [rewrite E; reflexivity|].
+      exists u0, (nm ++ [c]), catch. split; [rewrite <- !app_assoc; reflexivity|]. split; [exact Hc'|].
+      intros Hin. apply in_app_or in Hin. destruct Hin as [Hin|[<-|[]]]; [contradiction|].
+      simpl in H. congruence.
+    + simpl in H. deqb; try destruct h; simpl in *; congruence.
+    + simpl in H. congruence.
+Qed.
+
+Lemma take_name_diff a s b s' : a <> b -> fst (take_name (a :: s)) <> fst (take_name (b :: s')).
+Proof.
+  intros Hab. simpl. destruct (Ascii.eqb_spec a "}") as [->|Na]; destruct (Ascii.eqb_spec b "}") as [->|Nb]; simpl.
+  - congruence.
+  - destruct (take_name s'); simpl; congruence.
+  - destruct (take_name s); simpl; congruence.
+  - destruct (take_name s), (take_name s'); simpl; congruence.
+Qed.
+
+Theorem clash_conflict p q : clash p q -> patterns_conflict p q = true /\ p <> q.
+Proof.
+  intros [u [a [s [b [s' [-> [-> [Hab Hn]]]]]]]]. split.
+  2:{ intros E. apply app_inv_head in E. congruence. }
+  destruct (vname_split u vinit (or_introl eq_refl) Hn) as [u0 [nm [catch [-> [Hc Hni]]]]].
+  unfold patterns_conflict. rewrite <- !app_assoc. rewrite !(tokenize_app u0) by exact Hc.
+  rewrite tokens_conflict_app.
+  pose proof (take_name_diff a s b s' Hab) as Hd.
+  destruct catch; simpl app; rewrite !tokenize_cons; simpl;
+    rewrite !take_name_app2 by exact Hni;
+    destruct (take_name (a :: s)) as [n1 r1], (take_name (b :: s')) as [n2 r2]; simpl in *;
+    (destruct (bytes_eqb_spec (nm ++ n1) (nm ++ n2)) as [E|E]; [apply app_inv_head in E; contradiction|reflexivity]).
+Qed.
